@@ -98,7 +98,8 @@ func Krovak(this *SR) (forward, inverse Transformer, err error) {
 			err = fmt.Errorf("proj.Krovak: iter >= 15")
 			return
 		}
-
+		// The position has been computed in the reused parameter variables.
+		lon, lat = x, y
 		return
 	}
 	return
